@@ -262,7 +262,39 @@ fn run_type<B: BoxIO>(cx: &mut Ctx, name: &str, nshapes: usize, gen: &dyn Fn(&mu
             }
             cx.rep.note("box_types", name);
             let fails = if prop == "C04" {
-                check_c04(&c, &mut rng)
+                let mut fl = check_c04(&c, &mut rng);
+                if name == "stsd" {
+                    // a sample description with TWO entries of different codecs (legal, rare):
+                    // whatever the decoder makes of it, re-encoding the decoded value and
+                    // decoding again must reproduce that value (the fixpoint clause)
+                    let mut two = c.refbox.clone();
+                    let first_is_audio = two.children().first().map(|e| &e.typ == b"mp4a").unwrap_or(false);
+                    let mut patched = false;
+                    if let Some(refenc::Part::Data(pb)) = two.parts.first_mut() {
+                        if pb.b.len() >= 8 && pb.b[4..8] == [0, 0, 0, 1] {
+                            pb.b[7] = 2;
+                            patched = true;
+                        }
+                    }
+                    if patched {
+                        two.push(if first_is_audio { crate::boxgen::gen_avc1(&mut rng, 0).refbox } else { crate::boxgen::gen_mp4a(&mut rng, 0).refbox });
+                        let vb = refenc::serialize_one(&two);
+                        if let Ok((v1, _)) = decode::<B>(&vb) {
+                            if let Ok((b2, _)) = encode(&v1) {
+                                match decode::<B>(&b2) {
+                                    Ok((v2, _)) => {
+                                        if v2 != v1 {
+                                            fl.push(("reencode_not_fixpoint".into(), json!({"variant": "two sample entries of different codecs", "v1": format!("{:?}", v1).chars().take(300).collect::<String>(), "v2": format!("{:?}", v2).chars().take(300).collect::<String>()})));
+                                        }
+                                    }
+                                    Err(e) => fl.push(("reencoded_bytes_rejected".into(), json!({"variant": "two sample entries of different codecs", "err": e}))),
+                                }
+                            }
+                        }
+                        cx.rep.add("stsd_two_entry_fixpoints", 1);
+                    }
+                }
+                fl
             } else {
                 let ev = variants(&c, &mut rng);
                 check_c05(&c, &mut rng, &ev)
